@@ -4,9 +4,15 @@
 package main
 
 import (
+	"context"
 	"errors"
 	"os"
+	"sort"
+	"strconv"
 	"strings"
+	"time"
+
+	"go.miragespace.co/specter/spec/chord"
 
 	"go.miragespace.co/specter/kv/aof"
 	"verif/harness/cmd/c21/aofh"
@@ -54,6 +60,128 @@ func (s *session) do(o aofh.Op) {
 	}
 }
 
+// ---------- lease calls (volatile: kv/aof hands them to the memory store, they are never logged) ----------
+
+// leaseOp: kind acq|ren|rel; ttl in milliseconds; tok = "cur" (the token the store holds right now,
+// read through Export as an honest holder would remember it) or a literal number.
+type leaseOp struct {
+	kind string
+	key  []byte
+	ttl  int
+	tok  string
+}
+
+func (o leaseOp) line() string {
+	switch o.kind {
+	case "acq":
+		return "acq " + aofh.Tok(o.key) + " " + strconv.Itoa(o.ttl)
+	case "ren":
+		return "ren " + aofh.Tok(o.key) + " " + strconv.Itoa(o.ttl) + " " + o.tok
+	}
+	return "rel " + aofh.Tok(o.key) + " " + o.tok
+}
+
+func parseLeaseOp(t []string) (leaseOp, bool) {
+	switch {
+	case len(t) == 3 && t[0] == "acq":
+		n, _ := strconv.Atoi(t[2])
+		return leaseOp{kind: "acq", key: aofh.UnTok(t[1]), ttl: n}, true
+	case len(t) == 4 && t[0] == "ren":
+		n, _ := strconv.Atoi(t[2])
+		return leaseOp{kind: "ren", key: aofh.UnTok(t[1]), ttl: n, tok: t[3]}, true
+	case len(t) == 3 && t[0] == "rel":
+		return leaseOp{kind: "rel", key: aofh.UnTok(t[1]), tok: t[2]}, true
+	}
+	return leaseOp{}, false
+}
+
+func leaseErrTok(err error) string {
+	switch {
+	case err == nil:
+		return "ok"
+	case errors.Is(err, chord.ErrKVLeaseInvalidTTL):
+		return "invalid-ttl"
+	case errors.Is(err, chord.ErrKVLeaseConflict):
+		return "lease-conflict"
+	case errors.Is(err, chord.ErrKVLeaseExpired):
+		return "lease-expired"
+	}
+	return "err"
+}
+
+func (s *session) lease(o leaseOp) {
+	if s.kv == nil {
+		return
+	}
+	ctx := context.Background()
+	key := append([]byte(nil), o.key...)
+	tok := uint64(0)
+	if o.tok == "cur" {
+		if ex, _ := s.kv.Export(ctx, [][]byte{key}); len(ex) == 1 {
+			tok = ex[0].GetLeaseToken()
+		}
+	} else if o.tok != "" {
+		tok, _ = strconv.ParseUint(o.tok, 10, 64)
+	}
+	ttl := time.Duration(o.ttl) * time.Millisecond
+	var err error
+	func() {
+		defer func() {
+			if p := recover(); p != nil {
+				err = errors.New("panic")
+			}
+		}()
+		switch o.kind {
+		case "acq":
+			_, err = s.kv.Acquire(ctx, key, ttl)
+		case "ren":
+			_, err = s.kv.Renew(ctx, key, ttl, tok)
+		case "rel":
+			err = s.kv.Release(ctx, key, tok)
+		}
+	}()
+	res := leaseErrTok(err)
+	s.r.Emit(o.line(), res)
+	s.r.Count("op:" + o.kind)
+	s.r.Count("result:" + o.kind + ":" + res)
+}
+
+// genLease: lease calls over the same key alphabet as the mutations; ttls are either rejected (< 1 s)
+// or so long that a lease never runs out during a case.
+func genLease(rng *hlib.Rng, keys [][]byte) leaseOp {
+	o := leaseOp{key: hlib.Pick(rng, keys)}
+	o.ttl = hlib.Pick(rng, []int{3600_000, 3600_000, 3600_000, 7200_500, 1000_000, 0, 999})
+	tok := "cur"
+	if rng.Chance(30) {
+		tok = strconv.Itoa(rng.Intn(7)) // stale / foreign token (imports carry 1..5)
+	}
+	switch x := rng.Intn(100); {
+	case x < 60:
+		o.kind = "acq"
+	case x < 80:
+		o.kind, o.tok = "ren", tok
+	default:
+		o.kind, o.tok = "rel", tok
+	}
+	return o
+}
+
+func universe(ops []aofh.Op, extra [][]byte) [][]byte {
+	keys := aofh.Universe(ops)
+	seen := map[string]bool{}
+	for _, k := range keys {
+		seen[aofh.Tok(k)] = true
+	}
+	for _, k := range extra {
+		if !seen[aofh.Tok(k)] {
+			seen[aofh.Tok(k)] = true
+			keys = append(keys, k)
+		}
+	}
+	sort.Slice(keys, func(i, j int) bool { return aofh.Tok(keys[i]) < aofh.Tok(keys[j]) })
+	return keys
+}
+
 func (s *session) snap(keys [][]byte) {
 	if s.kv == nil {
 		return
@@ -96,7 +224,7 @@ func safeOpen(dir string) (kv *aof.DiskKV, err error) {
 
 func main() {
 	r := hlib.Start()
-	r.Rule = "random mutation histories on the real aof store (puts, deletes, prefix append/remove over 4 children so conflicts are frequent, imports with overlapping/duplicate keys and lease tokens, key removals; 6 keys incl. the empty key), 1..4 clean Stop/aof.New cycles at random positions incl. back-to-back restarts, large values that cycle WAL segments; non-trivial = distinct history with at least one restart after a non-empty log"
+	r.Rule = "random mutation histories on the real aof store (puts, deletes, prefix append/remove over 4 children so conflicts are frequent, imports with overlapping/duplicate keys and lease tokens (stale and live), key removals; 6 keys incl. the empty key), two cases out of three interleaved with lease calls on the same keys (Acquire/Renew/Release through the store: valid and rejected ttls, current/stale/foreign tokens; never logged), 1..4 clean Stop/aof.New cycles at random positions incl. back-to-back restarts, large values that cycle WAL segments; non-trivial = distinct history with at least one restart after a non-empty log"
 	rng := hlib.NewRng(r.Seed)
 	s := &session{r: r}
 	defer s.close()
@@ -135,7 +263,24 @@ func main() {
 			cfg.N = c // empty and tiny histories
 		}
 		ops := aofh.Gen(rng, cfg)
-		keys := aofh.Universe(ops)
+		// two cases out of three also make lease calls (Acquire/Renew/Release: volatile, never logged)
+		// between the mutations, on the keys the mutations use, and let some imports carry a live token
+		leaseEvery := 0
+		var leaseKeys [][]byte
+		if c%3 != 0 && len(ops) > 0 {
+			leaseEvery = 10 + rng.Intn(30)
+			leaseKeys = aofh.Universe(ops)
+			if rng.Chance(50) && len(leaseKeys) > 2 {
+				leaseKeys = leaseKeys[:2] // concentrate the leases on few keys
+			}
+			for i := range ops {
+				if ops[i].Kind == "imp" && len(ops[i].Vals) > 0 && rng.Chance(15) {
+					ops[i].Vals[rng.Intn(len(ops[i].Vals))].Lease = aofh.LiveLease()
+				}
+			}
+			r.Count("case:with-lease-calls")
+		}
+		keys := universe(ops, leaseKeys)
 		s.reset()
 		restarts := 1 + rng.Intn(4)
 		at := map[int]int{}
@@ -149,11 +294,21 @@ func main() {
 				s.reopen(keys)
 				key.WriteString("R;")
 			}
+			for leaseEvery > 0 && len(leaseKeys) > 0 && rng.Chance(leaseEvery) {
+				l := genLease(rng, leaseKeys)
+				s.lease(l)
+				key.WriteString(l.line() + ";")
+			}
 			s.do(o)
 			key.WriteString(o.Line() + ";")
 			if rng.Chance(5) {
 				s.snap(keys)
 			}
+		}
+		for leaseEvery > 0 && len(leaseKeys) > 0 && rng.Chance(leaseEvery) {
+			l := genLease(rng, leaseKeys)
+			s.lease(l)
+			key.WriteString(l.line() + ";")
 		}
 		s.snap(keys)
 		s.reopen(keys)
